@@ -5,6 +5,7 @@ package ice
 import (
 	"context"
 	"net"
+	"net/netip"
 
 	"github.com/pion/stun/v3"
 )
@@ -108,14 +109,30 @@ func verifC06AddRemote() {
 
 	var cand Candidate
 	var err error
-	kind := verifChoice(6)
+	kind := verifChoice(7)
+	mdns := false
+	if kind == 6 {
+		// the signalled candidate is an mDNS name that has just been resolved to
+		// the peer-reflexive candidate's transport address
+		kind, mdns = 2, true
+		verifReach("mdns-resolved-to-the-prflx-address")
+	}
 	switch kind {
 	case 0: // new host candidate
 		cand, err = NewCandidateHost(&CandidateHostConfig{Network: udp, Address: "20.0.0.7", Port: 2007, Component: ComponentRTP})
 	case 1: // duplicate of an existing one
 		cand, err = NewCandidateHost(&CandidateHostConfig{Network: udp, Address: "20.0.0.1", Port: 2000, Component: ComponentRTP})
 	case 2: // signalled candidate with the peer-reflexive one's transport address
-		cand, err = NewCandidateHost(&CandidateHostConfig{Network: udp, Address: "20.0.0.2", Port: 2001, Component: ComponentRTP})
+		if mdns {
+			h, e := NewCandidateHost(&CandidateHostConfig{Network: udp, Address: "c0ffee00-0000-4000-8000-000000000001.local", Port: 2001, Component: ComponentRTP})
+			err = e
+			if e == nil {
+				err = h.setIPAddr(netip.AddrFrom4([4]byte{20, 0, 0, 2}))
+				cand = h
+			}
+		} else {
+			cand, err = NewCandidateHost(&CandidateHostConfig{Network: udp, Address: "20.0.0.2", Port: 2001, Component: ComponentRTP})
+		}
 	case 3: // TCP active: must be ignored
 		cand, err = NewCandidateHost(&CandidateHostConfig{Network: tcp, Address: "20.0.0.8", Port: 9, Component: ComponentRTP, TCPType: TCPTypeActive})
 	case 4: // srflx at a new address
@@ -126,7 +143,14 @@ func verifC06AddRemote() {
 	verifAssert(err == nil, "constructor")
 	before := w.snap()
 	nPairs := len(a.checklist)
-	e2 := a.AddRemoteCandidate(cand)
+	var e2 error
+	if mdns {
+		// what resolveAndAddMulticastCandidate does once the name is resolved
+		// (setIPAddr above, then addRemoteCandidate on the loop)
+		a.addRemoteCandidate(cand)
+	} else {
+		e2 = a.AddRemoteCandidate(cand)
+	}
 	verifSettle()
 	verifAssert(e2 == nil, "AddRemoteCandidate-ok")
 	after := w.snap()
@@ -152,9 +176,12 @@ func verifC06AddRemote() {
 		verifAssert(after.nRemotes == before.nRemotes && len(a.checklist) == nPairs, "duplicate-changes-nothing")
 	case 2:
 		verifReach("supersedes-prflx")
-		verifAssert(after.nRemotes == before.nRemotes, "signalled-candidate-replaces-the-peer-reflexive-one")
-		verifAssert(!verifContains(a.remoteCandidates[NetworkTypeUDP4], prflx), "peer-reflexive-candidate-gone")
-		verifAssert(len(a.checklist) == nPairs, "no-pair-added-or-lost")
+		verifAssertKnown(after.nRemotes == before.nRemotes, "signalled-candidate-replaces-the-peer-reflexive-one", "C06-mdns-candidate-does-not-supersede-prflx", mdns)
+		verifAssertKnown(!verifContains(a.remoteCandidates[NetworkTypeUDP4], prflx), "peer-reflexive-candidate-gone", "C06-mdns-candidate-does-not-supersede-prflx", mdns)
+		verifAssertKnown(len(a.checklist) == nPairs, "no-pair-added-or-lost", "C06-mdns-candidate-does-not-supersede-prflx", mdns)
+		if len(a.checklist) != nPairs {
+			break // (only while the finding is open) the per-pair comparison below needs equal lists
+		}
 		for i, ps := range before.pairs {
 			np := a.checklist[i]
 			verifAssert(np.id == ps.p.id && np.state == ps.state && np.nominated == ps.nominated && np.nominateOnBindingSuccess == ps.nomOnSucc &&
